@@ -97,8 +97,13 @@ static void section(Resource &res, int t, char op, bool barrier) {
                 // the Resource has been busy for a very long time: holder active, queue empty, 2^bits - 3 requests have queued since it
                 // was last idle (a state every sufficiently long history without an idle moment reaches; ids only ever matter
                 // relative to each other).  The next few requests cross the 2^bits boundary of the id counters.
-                using Id = decltype(res.m_idCounter);
-                res.m_idCounter = res.m_upperUnlockBound = static_cast<Id>((1ull << warpBits) - 3);
+                // (a Resource that has no such counters any more simply starts from its own state: the run is an ordinary crowd)
+                [](auto &r, int bits) {
+                    if constexpr (requires { r.m_idCounter; r.m_upperUnlockBound; }) {
+                        using Id = std::remove_reference_t<decltype(r.m_idCounter)>;
+                        r.m_idCounter = r.m_upperUnlockBound = static_cast<Id>((1ull << bits) - 3);
+                    }
+                }(res, warpBits);
             }
             hHolding = true; verif::await([] { return parkedCount() >= holdTarget; });
             hLeaving = true;
